@@ -416,10 +416,17 @@ class Expander:
                 continue
             inline_new_constants(m, self.modules)
         bind_new_parameters(self.modules)
+        drop_default_arguments(self.modules)
         for modname, m in self.modules.items():
             if modname.startswith("_fixture"):
                 continue
             respell_imports(m)
+        for modname, m in self.modules.items():
+            if modname.startswith("_fixture"):
+                continue
+            # aliases first: a helper called through a local alias (`value_of = self._value_of`) must be visible to the expansion
+            split_chained_assignments(m.tree)
+            bound_method_aliases(m.tree)
         for modname, m in self.modules.items():
             if modname.startswith("_fixture"):
                 continue
@@ -442,6 +449,7 @@ class Expander:
             loops_to_comprehensions(m.tree)
             flatten_spellings(m.tree)
             more_spellings(m.tree)
+            bound_method_aliases(m.tree)
             for node in ast.walk(m.tree):
                 for child in ast.iter_child_nodes(node):
                     child._parent = node
@@ -973,6 +981,83 @@ def bind_new_parameters(modules) -> int:
         c.keywords = [k for k in c.keywords if k.arg != pn]
         if posn is not None and len(c.args) == posn + 1:
             c.args = c.args[:posn]
+    return n
+
+
+def drop_default_arguments(modules) -> int:
+    """`obj.m(True)` / `obj.m(flag=True)` where every function of the package named `m` declares that parameter with the literal
+    default `True` is `obj.m()`: passing a default explicitly is the same call. Only trailing positional arguments and keyword
+    arguments are dropped; calls with * / ** are left alone."""
+    by_name: Dict[str, List[Tuple[ast.FunctionDef, bool]]] = {}
+    for modname, m in modules.items():
+        if modname.startswith("_fixture"):
+            continue
+        for node in m.tree.body:
+            if isinstance(node, ast.FunctionDef):
+                by_name.setdefault(node.name, []).append((node, False))
+            elif isinstance(node, ast.ClassDef):
+                for s_ in node.body:
+                    if isinstance(s_, ast.FunctionDef):
+                        is_m = not any(ast.unparse(d) == "staticmethod" for d in s_.decorator_list)
+                        by_name.setdefault(s_.name, []).append((s_, is_m))
+    n = 0
+    for modname, m in modules.items():
+        if modname.startswith("_fixture"):
+            continue
+        for c in [x for x in ast.walk(m.tree) if isinstance(x, ast.Call)]:
+            if isinstance(c.func, ast.Attribute):
+                nm, via_attr = c.func.attr, True
+            elif isinstance(c.func, ast.Name):
+                nm, via_attr = c.func.id, False
+            else:
+                continue
+            defs = by_name.get(nm)
+            if not defs or nm.startswith("__") or any(isinstance(a_, ast.Starred) for a_ in c.args) or any(k.arg is None for k in c.keywords):
+                continue
+            if not c.args and not c.keywords:
+                continue
+            # positional parameter lists (without self for methods called through an attribute) and defaults must agree across all defs
+            sigs = []
+            for fn, is_m in defs:
+                if fn.args.vararg or fn.args.kwarg:
+                    sigs = None
+                    break
+                pos = fn.args.posonlyargs + fn.args.args
+                dfl = [None] * (len(pos) - len(fn.args.defaults)) + list(fn.args.defaults)
+                if is_m and via_attr:
+                    pos, dfl = pos[1:], dfl[1:]
+                elif is_m and not via_attr:
+                    sigs = None
+                    break
+                table = {a.arg: d for a, d in zip(pos, dfl)}
+                table.update({a.arg: d for a, d in zip(fn.args.kwonlyargs, fn.args.kw_defaults)})
+                sigs.append(([a.arg for a in pos], table))
+            if not sigs:
+                continue
+
+            def default_of(name):
+                ds = [t.get(name) for _, t in sigs]
+                if any(d is None or not _is_literal_default(d) for d in ds) or len({ast.dump(d) for d in ds}) != 1:
+                    return None
+                return ds[0]
+            kept = []
+            for k in c.keywords:
+                d = default_of(k.arg)
+                if d is not None and ast.dump(d) == ast.dump(k.value):
+                    n += 1
+                    continue
+                kept.append(k)
+            c.keywords = kept
+            while c.args and not c.keywords:
+                i = len(c.args) - 1
+                names = {ps[i] if i < len(ps) else None for ps, _ in sigs}
+                if len(names) != 1 or None in names:
+                    break
+                d = default_of(next(iter(names)))
+                if d is None or ast.dump(d) != ast.dump(c.args[-1]):
+                    break
+                c.args.pop()
+                n += 1
     return n
 
 
@@ -1924,6 +2009,12 @@ def more_spellings(tree: ast.AST):
                     blk[i - 1:i + 1] = [new]
                     ast.fix_missing_locations(new)
                     i -= 1
+
+
+def bound_method_aliases(tree: ast.AST):
+    """`f = obj.method` (bound once, `obj` a plain name / attribute path not rebound afterwards, `f` only ever called) and
+    `f(args)` is `obj.method(args)`."""
+    for fn_ in [n for n in ast.walk(tree) if isinstance(n, ast.FunctionDef)]:
         # bound-method aliases
         stores: Dict[str, List[ast.AST]] = {}
         for x in ast.walk(fn_):
